@@ -145,6 +145,8 @@ let libm (fn : n) (x : f64) (y : f64) : f64 =
   let line = input_line ic in
   f_of_bits (z_of_string (String.trim line))
 
+exception Case_timeout
+let case_timeout = ref 10
 let fuel = ref 200000
 let seed = ref 0
 let clock_bits = ref "4745084416362086400" (* some fixed double *)
@@ -166,6 +168,7 @@ let () =
     | "--fuel" :: p :: r -> fuel := int_of_string p; parse_args r
     | "--seed" :: p :: r -> seed := int_of_string p; parse_args r
     | "--clock" :: p :: r -> clock_bits := p; parse_args r
+    | "--case-timeout" :: p :: r -> case_timeout := int_of_string p; parse_args r
     | _ :: r -> parse_args r
     | [] -> () in
   parse_args (List.tl args);
@@ -180,6 +183,10 @@ let () =
       let fs = Array.of_list (String.split_on_char '\t' line) in
       let fld i = if i < Array.length fs then fs.(i) else "" in
       let id = fld 1 in
+      let mark = Buffer.length out in
+      Sys.set_signal Sys.sigalrm (Sys.Signal_handle (fun _ -> raise Case_timeout));
+      ignore (Unix.alarm !case_timeout);
+      (try
       (match fld 0 with
        | "tokens" ->
            let lx = lex (cps_of_field (fld 2)) in
@@ -246,7 +253,12 @@ let () =
            done;
            flush_range 0x10FFFF
        | "" -> ()
-       | m -> Buffer.add_string out (Printf.sprintf "%s\tunknown-mode:%s\n" id m));
+       | m -> Buffer.add_string out (Printf.sprintf "%s\tunknown-mode:%s\n" id m))
+      with
+      | Case_timeout -> Buffer.truncate out mark; Buffer.add_string out (Printf.sprintf "%s\tnoresult:timeout\t\t\n" id)
+      | Out_of_memory -> Buffer.truncate out mark; Buffer.add_string out (Printf.sprintf "%s\tnoresult:memory\t\t\n" id)
+      | Stack_overflow -> Buffer.truncate out mark; Buffer.add_string out (Printf.sprintf "%s\tnoresult:stack\t\t\n" id));
+      ignore (Unix.alarm 0);
       if Buffer.length out > 60000 then flush_out ()
     done
   with End_of_file -> ());
